@@ -4,6 +4,8 @@ mod error;
 mod packet;
 mod remote_connection;
 mod server;
+#[cfg(feature = "verif")]
+pub mod verif;
 
 pub use channel::{ChannelConfig, DefaultChannel, SendType};
 pub use error::{ChannelError, ClientNotFound, DisconnectReason};
